@@ -221,19 +221,21 @@ def dynamic_rule(ctx):
             guarded = guarded and okg
         ok = len(inc) == 1 and len(dec) == 1 and values and rec and inc[0] < values[0] and rec[-1] < dec[0] and guarded
         obs.append(ob("C07.dynamic/counter", bool(ok), where, "counter incremented (@%s) before own values (@%s) and children, decremented (@%s) after the last child (@%s), both under `if %s`" % (inc, values[:1], dec, rec[-1:] if rec else None, name)))
-    if glob is None:
-        obs.append(ob("C07.dynamic/include", False, where, "the Include => disable-all table was not found"))
+    import guards as gd
+    calls = [n for n in sir.walk(f.body) if n.get("k") == "mcall" and n["m"] == "disable_all"]
+    Gd = gd.guards_of(f.body)
+    okc = False
+    for c in calls:
+        for kind, subj, pol in Gd.get(id(c), []):
+            # `if <table local>` (Include => true) or directly `if let ElementKind::Include {..} = &self.kind` / a match arm on it
+            if kind == "cond" and pol and glob is not None and sir.expr_str(subj) == glob[0]:
+                okc = True
+            if kind == "pat" and pol and "Include" in subj[1] and not any(v_ in subj[1] for v_ in ("Normal", "Pure", "For", "If", "TemplateRef", "Slot")) and "kind" in sir.expr_str(subj[0]):
+                okc = True
+    if not calls:
+        obs.append(ob("C07.dynamic/include", False, where, "an <include> must disable the whole collector, but disable_all() is never called"))
     else:
-        calls = [n for n in sir.walk(f.body) if n.get("k") == "mcall" and n["m"] == "disable_all"]
-        okc = False
-        for c in calls:
-            p = c
-            pm = sir.parent_map(f.body)
-            while id(p) in pm:
-                p = pm[id(p)]
-                if p.get("k") == "if" and sir.expr_str(p["cond"]) == glob[0]:
-                    okc = True
-        obs.append(ob("C07.dynamic/include", okc, where, "an <include> disables the whole collector: %s" % okc))
+        obs.append(ob("C07.dynamic/include", okc, where, "an <include> disables the whole collector (disable_all() runs exactly for ElementKind::Include): %s" % okc))
     # Value: mapped only when counter == 0 and !disable
     vf = [g for g in tc.fns if g.base == "Value" and g.name == f.name and g.body]
     if len(vf) != 1:
